@@ -18,6 +18,7 @@ import UnifexModel.Driver.Entries.SpawnFuture
 import UnifexModel.Driver.Entries.StopSource
 import UnifexModel.Driver.Entries.Stream
 import UnifexModel.Driver.Entries.Timer
+import UnifexModel.Driver.Entries.WhenAll
 
 namespace Unifex.Driver
 
@@ -54,6 +55,8 @@ def table : List ModelEntries :=
   , Entries.clock
   , Entries.timerqueue
   , Entries.timerop
+  , Entries.whenall
+  , Entries.stopwhen
   ]
 
 def lookup (m c : String) : Option Entry :=
